@@ -238,21 +238,25 @@ PART = ReqC08Enum()
 PART_LONG = ReqC08Long()
 
 CLAIM_TEXT = ("REQ: kernel-checked theorems about the Lean model of req_compactor/req_sketch over ALL histories (any number of live sketches, "
-              "updates, merges, copies, queries), every k and both modes: the number of coins drawn, the level of every draw and every shape "
-              "(level sizes, section parameters, state counters, n, extremes) are independent of the coin values (req_flips_shape_only); the "
-              "sum over all 2^F coin vectors of the weight of the retained items satisfying ANY predicate (in particular <= y and < y, i.e. "
-              "the rank numerator) equals 2^F times the true count (req_unbiased_partial / req_unbiased_rank) for every history in which no "
-              "odd-state compaction flips a coin that derives from no draw -- a decidable, coin-independent hypothesis that holds for every "
-              "history without merges (req_unbiased_streams). The unrestricted statement is FALSE as coded (req_compactor::merge adopts an odd "
-              "state but keeps the constant initial coin): req_unbiased_full_false with a 53-op witness evaluated by the kernel over all coin "
-              "vectors, replayed on the real code by whole-coin-tree enumeration, proposed fix. Tie: for short histories the multisets of "
-              "leaves over EVERY coin vector (implementation vs model) are equal and the implementation's leaves satisfy the integer identity "
-              "and have equal flip counts; long histories run with recorded coins on both sides.")
+              "updates, merges, copies, queries), every k and both modes, for BOTH shapes of the compactor constructor (constant initial coin "
+              "/ initial coin drawn; the shape is re-read from the headers on every run and the executed model follows it: one coin per "
+              "compactor creation in the repaired shape): the number of coins drawn, the level of every draw and every shape are independent "
+              "of the coin values (req_flips_shape_only); the sum over all 2^F coin vectors of the weight of the retained items satisfying ANY "
+              "predicate (in particular <= y and < y, i.e. the rank numerator) equals 2^F times the true count -- for the repaired shape for "
+              "EVERY history and merge tree with no further hypothesis (req_unbiased_repaired, req_unbiased_current over the generated flag), "
+              "for the pinned shape for every history in which no odd-state compaction flips a coin that derives from no draw "
+              "(req_unbiased_partial; always true without merges: req_unbiased_streams). For the pinned shape the unrestricted statement is "
+              "FALSE (req_unbiased_full_false: req_compactor::merge adopts an odd state but keeps the constant initial coin; 53-op witness "
+              "evaluated by the kernel over all coin vectors, replayed on the real code by whole-coin-tree enumeration; the same witness is "
+              "unbiased over its 32 coin vectors in the repaired shape). Tie: for short histories the multisets of leaves over EVERY coin "
+              "vector (implementation vs model) are equal and the implementation's leaves satisfy the integer identity and have equal flip "
+              "counts; long histories run with recorded coins on both sides. While the headers have the pinned shape the finding "
+              "`req-merge-adopts-odd-state` is reported as an open known finding; on a tree with the repair a bias is a plain violation.")
 
 
 class C08Req(Spec):
     pid = "C08"
-    props_modules = ["DSProofs.Props.C08_Req"]
+    props_modules = ["DSProofs.Props.C08_Req", "DSProofs.Props.C08_Req_Repaired"]
     tfamilies = ["req"]
     rule = ("REQ part: short histories (1-4 sketches, k 4-8, both modes, single stream / two-way merge / adopt-after-compaction / merge "
             "trees with copies) truncated to <= maxflips coins (8/10/12 quick, up to 14 thorough), EVERY coin vector enumerated on "
